@@ -74,13 +74,39 @@ Ltac red_all := lazy -[Rplus Rmult Rminus Ropp Rdiv Rinv IZR sqrt].
 Ltac red_all_in H := lazy -[Rplus Rmult Rminus Ropp Rdiv Rinv IZR sqrt not] in H.
 Ltac case3 i := destruct i as [|[|[|i]]].
 
+(* determinant and cofactors of a generic 3x3 matrix, once (the index-notation definitions are sums of 27 / 81 terms) *)
+Definition det2g (a : M2) : R :=
+  a 0%nat 0%nat * (a 1%nat 1%nat * a 2%nat 2%nat - a 1%nat 2%nat * a 2%nat 1%nat)
+  - a 0%nat 1%nat * (a 1%nat 0%nat * a 2%nat 2%nat - a 1%nat 2%nat * a 2%nat 0%nat)
+  + a 0%nat 2%nat * (a 1%nat 0%nat * a 2%nat 1%nat - a 1%nat 1%nat * a 2%nat 0%nat).
+Definition cof2g (a : M2) : M2 := fun i j =>
+  match i, j with
+  | 0%nat, 0%nat => a 1%nat 1%nat * a 2%nat 2%nat - a 1%nat 2%nat * a 2%nat 1%nat
+  | 0%nat, 1%nat => - (a 1%nat 0%nat * a 2%nat 2%nat - a 1%nat 2%nat * a 2%nat 0%nat)
+  | 0%nat, 2%nat => a 1%nat 0%nat * a 2%nat 1%nat - a 1%nat 1%nat * a 2%nat 0%nat
+  | 1%nat, 0%nat => - (a 0%nat 1%nat * a 2%nat 2%nat - a 0%nat 2%nat * a 2%nat 1%nat)
+  | 1%nat, 1%nat => a 0%nat 0%nat * a 2%nat 2%nat - a 0%nat 2%nat * a 2%nat 0%nat
+  | 1%nat, 2%nat => - (a 0%nat 0%nat * a 2%nat 1%nat - a 0%nat 1%nat * a 2%nat 0%nat)
+  | 2%nat, 0%nat => a 0%nat 1%nat * a 1%nat 2%nat - a 0%nat 2%nat * a 1%nat 1%nat
+  | 2%nat, 1%nat => - (a 0%nat 0%nat * a 1%nat 2%nat - a 0%nat 2%nat * a 1%nat 0%nat)
+  | 2%nat, 2%nat => a 0%nat 0%nat * a 1%nat 1%nat - a 0%nat 1%nat * a 1%nat 0%nat
+  | _, _ => 0
+  end.
+Lemma det2_g a : det2 a = det2g a.
+Proof. unfold det2g; red_all; ring. Qed.
+Lemma cof2_g a : cof2 a = cof2g a.
+Proof.
+  apply functional_extensionality; intro i; apply functional_extensionality; intro j.
+  case3 i; case3 j; red_all; field.
+Qed.
+
 Lemma det2_cf N c : (N = 1 \/ N = 2 \/ N = 3)%nat -> det2 (full_t N c) = det2cf N c.
-Proof. intros [-> | [-> | ->]]; red_all; ring. Qed.
+Proof. intros [-> | [-> | ->]]; rewrite det2_g; red_all; ring. Qed.
 
 Lemma cof2_cf N c : (N = 1 \/ N = 2 \/ N = 3)%nat -> cof2 (full_t N c) = cof2cf N c.
 Proof.
-  intros HN; apply functional_extensionality; intro i; apply functional_extensionality; intro j.
-  destruct HN as [-> | [-> | ->]]; case3 i; case3 j; red_all; field.
+  intros HN; rewrite cof2_g; apply functional_extensionality; intro i; apply functional_extensionality; intro j.
+  destruct HN as [-> | [-> | ->]]; case3 i; case3 j; red_all; ring.
 Qed.
 
 Lemma inv2_cf N c : (N = 1 \/ N = 2 \/ N = 3)%nat -> det2 (full_t N c) <> 0 -> inv2 (full_t N c) = inv2cf N c.
@@ -89,7 +115,7 @@ Proof.
   unfold inv2; rewrite (cof2_cf N c HN); rewrite (det2_cf N c HN) in *.
   destruct HN as [-> | [-> | ->]]; case3 i; case3 j; red_all; red_all_in H;
     try (unfold Rdiv; rewrite Rmult_0_l; reflexivity);
-    field; repeat split; intro E_; apply H; timeout 300 nsatz_tac.
+    field; repeat split; intro E_; apply H; timeout 600 nsatz_tac.
 Qed.
 
 (* canonical non-zero facts (for the side conditions of `field_simplify_eq` on the closed forms) *)
@@ -128,11 +154,42 @@ Ltac abstract_inv :=
              | let i := fresh "i_" in set (i := / x) in * ]
   end.
 Ltac unabstract_inv := repeat match goal with i := / _ |- _ => subst i end.
-Ltac close_poly := first [ ring [sqrt2_sq sqrt3_sq sqrt6_sq] | field_simplify_eq; ring [sqrt2_sq sqrt3_sq sqrt6_sq] ].
+(* every product  p * i  of a polynomial by an abstracted inverse (an entry of an inverse tensor, cof_ji * / det) becomes
+   a variable as well; products equal as polynomials share the variable.  An identity that is polynomial in the entries
+   of the inverse (push-forward by F^-1, d(F^-1)/dF ...) is then closed on terms of the size of the index-notation sum,
+   not of its expansion in the components of F *)
+(* does p mention a storage vector other than c ? *)
+Ltac other_vec_in c p :=
+  match goal with
+  | v : ?T |- _ => lazymatch T with (nat -> R) => idtac | vec => idtac end;
+                   tryif constr_eq v c then fail else lazymatch p with context [v] => idtac end
+  end.
+Ltac vec_of D := match D with context [?c _] => lazymatch type of c with (nat -> R) => c | vec => c end end.
+Ltac abstract_entries :=
+  rewrite ?Rmult_1_l;
+  repeat match goal with
+  | i := / ?D |- context [ ?p * ?j ] =>
+      constr_eq i j;
+      lazymatch p with context [i] => fail | _ => idtac end;
+      let c := vec_of D in
+      tryif other_vec_in c p then fail else
+      first [ match goal with g := ?q * i |- _ => replace (p * i) with g by (unfold g; apply (f_equal (fun x_ => x_ * i)); ring) end
+            | let g := fresh "g_" in set (g := p * i) in * ]
+  end.
+Ltac unabstract_entries := repeat match goal with g := _ * _ |- _ => subst g end.
+(* after the abstractions the only inverses left are those of constants (/ 2 of the Mandel weights): `ring` alone cannot
+   use 2 * / 2 = 1 *)
+Ltac close_poly :=
+  lazymatch goal with
+  | |- context [ / _ ] => field_simplify_eq; ring [sqrt2_sq sqrt3_sq sqrt6_sq]
+  | _ => first [ ring [sqrt2_sq sqrt3_sq sqrt6_sq] | field_simplify_eq; ring [sqrt2_sq sqrt3_sq sqrt6_sq] ]
+  end.
+(* `once`: the context matches above have many successes; a later failure must not re-enter them *)
 Ltac prove_comp_cf f :=
-  intros; unfold f; expose_spec; closed_forms; canon_nz;
+  intros; once (expose_spec; closed_forms; canon_nz); unfold f;
   red_all; unfold Rdiv; rewrite ?Rinv_mult;
-  abstract_inv;
-  first [ timeout 900 close_poly
-        | unabstract_inv; timeout 1800 (field_simplify_eq; [ ring [sqrt2_sq sqrt3_sq sqrt6_sq] | nonzero .. ]) ].
-Ltac prove_comp f := first [ prove_comp_cf f | TensorTactics.prove_comp f ].
+  once abstract_inv;
+  first [ once abstract_entries; timeout 1800 close_poly
+        | timeout 1800 close_poly
+        | unabstract_inv; timeout 3000 (field_simplify_eq; [ ring [sqrt2_sq sqrt3_sq sqrt6_sq] | nonzero .. ]) ].
+Ltac prove_comp f := first [ once (prove_comp_cf f) | TensorTactics.prove_comp f ].
